@@ -30,6 +30,10 @@ FORBIDDEN = re.compile(
     r"\b(sorry|admit|native_decide|bv_decide|implemented_by|unsafe)\b|^\s*axiom\s|maxHeartbeats\s+0\b"
 )
 
+import warnings as _warnings
+
+_warnings.showwarning = lambda *a, **k: None  # sigfig resets the warning filters; library warnings are not verdicts
+
 sys.path.insert(0, str(REPO / "src"))
 os.environ.setdefault("NUMBERS_PARSER_VERIF", "1")
 
